@@ -61,13 +61,21 @@ func (w *World) identsStillInFunc(fkey, loopKey string) bool {
 		return false
 	}
 	have := map[string]bool{}
+	fieldUse := map[*ast.Ident]bool{}
 	ast.Inspect(fn.Syntax(), func(n ast.Node) bool {
-		if id, ok := n.(*ast.Ident); ok {
+		if se, ok := n.(*ast.SelectorExpr); ok {
+			fieldUse[se.Sel] = true // x.name: the field or method name says nothing about a local of that name
+		}
+		if id, ok := n.(*ast.Ident); ok && !fieldUse[id] {
 			have[id.Name] = true
 		}
 		return true
 	})
-	for _, wd := range loopKeyWordRe.FindAllString(loopKey, -1) {
+	for _, loc := range loopKeyWordRe.FindAllStringIndex(loopKey, -1) {
+		wd := loopKey[loc[0]:loc[1]]
+		if loc[0] > 0 && loopKey[loc[0]-1] == '.' {
+			continue // a field or method name in the header text
+		}
 		switch wd {
 		case "for", "range", "len", "nil", "true", "false":
 			continue
